@@ -387,6 +387,35 @@ func TestCheck(t *testing.T) {
 					}
 				}
 			}
+			// a flood: hundreds of probes of all kinds connected at the same instant
+			// to this one bridge.  Each of them is owed the same treatment as a
+			// probe that comes alone (whatever the server does to bound its own
+			// resources may not show as another close time or as unread input).
+			if r.Thorough() || bi%4 == 1 {
+				n := r.Pick(200, 600)
+				var flood []probe // (every entry is used once: a chunk policy has state)
+				for len(flood) < n {
+					flood = append(flood, probesFor(rng, b, r, false)...)
+				}
+				results := make([]*o4.ProbeResult, n)
+				scripts := make([]probe, n)
+				var fwg sync.WaitGroup
+				for i := 0; i < n; i++ {
+					i := i
+					scripts[i] = flood[i]
+					scripts[i].ps = scripts[i].mk()
+					fwg.Add(1)
+					c.Go(fwg.Done, func() { results[i] = o4.RunProbe(c, sf, scripts[i].ps) })
+				}
+				fwg.Wait()
+				for i, res := range results {
+					pr := scripts[i]
+					pr.class = "flood/" + pr.class
+					judge(c, r, sf, b, bi, 5000+i, pr, res, &D, &Dclass)
+				}
+				r.Count("probe_floods", 1)
+				r.Count("probes_in_floods", int64(n))
+			}
 			// replays after a while: hellos stamped with the previous, the current and
 			// the next hour of the server clock are accepted once each, then replayed
 			// 1 s .. 5 h later.  Whenever that is, the server must stay silent: the
